@@ -20,6 +20,7 @@ CLS_ENUM = 'enumerate_iterable_keyword'
 CLS_BODY = 'frame_builtin_inside_functionalised_body'
 CLS_EVAL_G = 'eval_globals_without_locals'
 CLS_EVAL_N = 'eval_explicit_none_globals'
+WATCH = ('a', 'b', 'u', 'v', 'x', 'out')
 
 
 def _malt():
@@ -65,7 +66,8 @@ class Routes:
     def substitute(self, b, via, way=None):
         f = getattr(builtins, b)
         if via == 'overload_of':
-            return self.pb.overload_of(f)
+            pb = self.pb
+            return lambda *a, **k: pb.overload_of(f)(*a, **k)     # the table lookup is part of what is observed
         if via == 'converted_call':
             api, opts = self.api, self.opts
             return lambda *a, **k: api.converted_call(f, tuple(a), dict(k) if k else None, options=opts)
@@ -146,8 +148,8 @@ def run_callable(fn, args):
 class FrameSpy:
     """Records every `_find_originating_frame` search on the real stack (shadowing the module global)."""
 
-    def __init__(self, pb):
-        self.pb, self.orig, self.records = pb, pb._find_originating_frame, []
+    def __init__(self, pb, scratch):
+        self.pb, self.orig, self.records, self.scratch = pb, pb._find_originating_frame, [], scratch
 
     def __enter__(self):
         spy = self
@@ -156,7 +158,7 @@ class FrameSpy:
             result = spy.orig(c14_scope, innermost)
             frames, chosen = [('_find_originating_frame', [], 0, [])], None
             fr = sys._getframe()
-            gids = {}
+            gids, oids = {}, {}
             while fr is not None:
                 loc = fr.f_locals
                 ent = []
@@ -164,6 +166,10 @@ class FrameSpy:
                     ent.append((c14_scope.name, 1))
                 elif c14_scope.name in loc:
                     ent.append((c14_scope.name, 2))
+                if os.path.basename(fr.f_code.co_filename).startswith('__autograph_generated_file'):   # generated code: the user variables it shows
+                    for w in WATCH:
+                        if w in loc:
+                            ent.append((w, oids.setdefault(id(loc[w]), len(oids) + 10)))
                 if fr is result:
                     chosen = len(frames)
                 frames.append((fr.f_code.co_name, ent, gids.setdefault(id(fr.f_globals), len(gids) + 1), list(fr.f_code.co_varnames[:1])))
@@ -193,13 +199,20 @@ def eval_class_py(extra):
 
 
 def class_of_program(prog):
-    if prog['kind'] in ('eval', 'locals') and prog['nest']:
-        return CLS_BODY
+    """Python mirror of the Lean class predicates (the driver's answers on the recorded stacks are
+    compared with it in `correspondence:c14.class.body` / `c14.class.eval`)."""
     if prog['kind'] == 'eval':
         c = eval_class_py(prog.get('extra'))
         if c in (CLS_EVAL_G, CLS_EVAL_N):
             return c
+    if prog['kind'] in ('eval', 'locals') and body_hides_py(prog):
+        return CLS_BODY
     return None
+
+
+def body_hides_py(prog):
+    """bodyHidesName: the call sits in a generated body and needs a user variable that body does not reference."""
+    return bool(prog['nest']) and any(n not in P.VISIBLE_IN_INNERMOST_BODY for n in prog.get('needs', []))
 
 
 def program_case(routes, prog, feature):
@@ -219,7 +232,7 @@ def program_case(routes, prog, feature):
     except Exception as e:  # noqa
         return 'conversion failed: %s' % type(e).__name__, {'error': str(e)[:300]}, []
     results = []
-    with FrameSpy(routes.pb) as spy:
+    with FrameSpy(routes.pb, tempfile.gettempdir()) as spy:
         for a in prog['args']:
             ro = run_callable(orig, mk_args(a))
             n0 = len(spy.records)
@@ -630,21 +643,25 @@ def _check(run, routes, only_case):
     rt_map = [[k, f.__name__] for k, f in pb.BUILTIN_FUNCTIONS_MAP.items()]
     run.oblige('correspondence:SUPPORTED_BUILTINS', 'correspondence', tables[0] == supported, '%s vs %s' % (tables[0], supported))
     run.oblige('correspondence:BUILTIN_FUNCTIONS_MAP', 'correspondence', tables[1] == rt_map, '%s vs %s' % (tables[1], rt_map))
-    regs = {n: getattr(pb, n) for n in tables[4]}
+    regs = {n: getattr(pb, n, None) for n in tables[4]}
     nonempty = [n for n, r in regs.items() if getattr(r, '_registry', None) != {}]
     run.oblige('correspondence:registries-empty', 'correspondence', not nonempty, 'non-empty: %s' % nonempty)
     bad = []
     for b in supported:
         f = getattr(builtins, b)
-        if pb.overload_of(f) is not getattr(pb, dict(tables[1]).get(b, '?'), None):
-            bad.append(b)
+        try:
+            if pb.overload_of(f) is not getattr(pb, dict(tables[1]).get(b, '?'), None):
+                bad.append(b)
+        except Exception as e:  # noqa
+            bad.append('%s (%s)' % (b, type(e).__name__))
     run.oblige('correspondence:overload_of', 'correspondence', not bad, 'overload_of disagrees with the generated map for %s' % bad)
 
     # 3b. inspect.signature of every overload and helper vs the generated parameter lists
     lines, expect = [], []
     for n in tables[2] + tables[3]:
         lines.append('c14.sig ' + n)
-        expect.append(sexp(sig_sexp(inspect.signature(getattr(pb, n)), pb.UNSPECIFIED)))
+        fn = getattr(pb, n, None)
+        expect.append(sexp(sig_sexp(inspect.signature(fn), pb.UNSPECIFIED)) if callable(fn) else 'NOT-DEFINED-IN-MODULE')
     corr('c14.sig', lines, expect)
 
     # 3c. builtin specification table vs inspect.signature(builtin), and vs probing with valid values
@@ -774,9 +791,13 @@ def _check(run, routes, only_case):
             saved[b] = pb.__dict__.get(b, saved)
             pb.__dict__[b] = mkspy(b)
         for b in supported:
-            ov = pb.overload_of(getattr(builtins, b))
+            ov = (lambda fb: (lambda *a, **k: pb.overload_of(fb)(*a, **k)))(getattr(builtins, b))
             forms = parse_sexp(drive(['c14.spec ' + b])[0])
-            names = sorted({p[0] for f in forms for p in f if p[1] != 'varPos'} | set(inspect.signature(ov).parameters) | {'zz'})
+            try:
+                ov_names = set(inspect.signature(pb.overload_of(getattr(builtins, b))).parameters)
+            except Exception:  # noqa
+                ov_names = set()
+            names = sorted({p[0] for f in forms for p in f if p[1] != 'varPos'} | ov_names | {'zz'})
             names = [n for n in names if n not in ('objects', 'kwargs', 'iterables', 'args')]
             shapes = shapes_for(names, 4, rng, 400 if quick else 4000)
             shapes += [(len(w[0]), [k for k, _ in w[1]]) for w in V.ways(b, 'thorough')]   # every documented way
@@ -800,6 +821,9 @@ def _check(run, routes, only_case):
                     except ValueError:
                         exp = 'ValueError'
                         fwd_outcomes['ValueError'] = fwd_outcomes.get('ValueError', 0) + 1
+                    except Exception as e:  # noqa
+                        exp = type(e).__name__
+                        fwd_outcomes[exp] = fwd_outcomes.get(exp, 0) + 1
                     truthy = [v.name for v in kw.values() if v.truthy] + [p.name for p in pos]
                     lines.append('c14.forward %s %s %s' % (b, sexp([[p.name for p in pos], [[k, v.name] for k, v in kw.items()]]),
                                                            sexp(['truthy'] + truthy)))
@@ -836,8 +860,8 @@ def _check(run, routes, only_case):
         lines.append('c14.find %s 1 %s %s' % (r['name'], sexp(r['innermost']), sexp(frames_sexp(r['frames']))))
         expect.append(str(r['chosen']))
         if r['innermost']:
-            cls_lines.append('c14.class.body %s 1 %s' % (r['name'], sexp(frames_sexp(r['frames']))))
-            cls_expect.append(sexp(bool(prog['nest'])))
+            cls_lines.append('c14.class.body %s 1 %s %s' % (r['name'], sexp(list(prog.get('needs', []))), sexp(frames_sexp(r['frames']))))
+            cls_expect.append(sexp(body_hides_py(prog)))
 
     class Scope:
         def __init__(self, name):
